@@ -64,7 +64,45 @@ SCHEDULE_FOLDERS = [
 ]
 
 
+def make_sched_folder(spec: Dict, n_variants: int = 2) -> Tuple[str, Dict]:
+    """Write a generated scenario as an episode-scheduled FOLDER (base scenario + per-episode variant files that define
+    the green agents through a YAML anchor, the placeholder mechanism of the shipped scheduled scenarios)."""
+    import tempfile
+
+    cfg, meta = gen_scenario.build(spec)
+    greens = [a for a in cfg["agents"] if a.get("team") == "GREEN"]
+    others = [a for a in cfg["agents"] if a.get("team") != "GREEN"]
+    if not greens:
+        greens = [{"ref": "green_idle", "team": "GREEN", "type": "probabilistic-agent",
+                   "action_space": {"action_map": {0: {"action": "do-nothing", "options": {}}}},
+                   "agent_settings": {"action_probabilities": {0: 1.0}},
+                   "reward_function": {"reward_components": [{"type": "dummy"}]}}]
+    root = tempfile.mkdtemp(prefix="gensched_", dir=os.environ.get("VERIF_WORK") or os.environ.get("HOME") or "/tmp")
+    base = dict(cfg, agents=["__GREENS__"] + others)
+    text = yaml.safe_dump(base, sort_keys=False).replace("- __GREENS__", "- *greens")
+    with open(os.path.join(root, "base.yaml"), "w") as f:
+        f.write(text)
+    sched = {}
+    for k in range(n_variants):
+        gs = copy.deepcopy(greens)
+        for g in gs:
+            pr = g["agent_settings"]["action_probabilities"]
+            if len(pr) >= 2:  # another distribution per episode variant
+                keys = sorted(pr)
+                w = [1.0 + ((k + i) % 3) for i in range(len(keys))]
+                tot = sum(w)
+                g["agent_settings"]["action_probabilities"] = {kk: w[i] / tot for i, kk in enumerate(keys)}
+        with open(os.path.join(root, f"greens_{k}.yaml"), "w") as f:
+            f.write("greens: &greens\n" + "\n".join("  " + l for l in yaml.safe_dump(gs, sort_keys=False).splitlines()) + "\n")
+        sched[k] = [f"greens_{k}.yaml"]
+    with open(os.path.join(root, "schedule.yaml"), "w") as f:
+        yaml.safe_dump({"base_scenario": "base.yaml", "schedule": sched}, f)
+    return root, meta
+
+
 def case_cfg(case: Dict) -> Tuple[Any, Optional[Dict]]:
+    if case["src"] == "genfolder":
+        return make_sched_folder(case["spec"], case.get("n_variants", 2))
     if case["src"] == "folder":
         # an episode-scheduled scenario: PrimaiteGymEnv takes the folder path and composes the YAML per episode
         return _resolve(case["path"]), None
